@@ -304,6 +304,18 @@ DOMAttr * DOMElementImpl::setAttributeNode(DOMAttr *newAttr)
 }
 
 
+void DOMElementImpl::normalize()
+{
+    // The sub-tree that is to be normalized includes the attribute nodes
+    // (their children are Text and EntityReference nodes)
+    const XMLSize_t attrCount = fAttributes->getLength();
+    for (XMLSize_t i = 0; i < attrCount; i++)
+        fAttributes->item(i)->normalize();
+
+    fParent.normalize();
+}
+
+
 void DOMElementImpl::setNodeValue(const XMLCh *x)
 {
     fNode.setNodeValue(x);
@@ -575,7 +587,6 @@ const XMLCh* DOMElementImpl::getBaseURI() const
            bool             DOMElementImpl::hasChildNodes() const                   {return fParent.hasChildNodes (); }
            DOMNode*         DOMElementImpl::insertBefore(DOMNode *newChild, DOMNode *refChild)
                                                                                     {return fParent.insertBefore (newChild, refChild); }
-           void             DOMElementImpl::normalize()                             {fParent.normalize (); }
            DOMNode*         DOMElementImpl::removeChild(DOMNode *oldChild)          {return fParent.removeChild (oldChild); }
            DOMNode*         DOMElementImpl::replaceChild(DOMNode *newChild, DOMNode *oldChild)
                                                                                     {return fParent.replaceChild (newChild, oldChild); }
